@@ -351,6 +351,24 @@ func (c *Ctx) ruleSegKind(rule string) {
 					return true
 				}
 			}
+		case *ssa.Parameter:
+			// the key handed to a worker of the loop: every call site passes a key
+			if typeStr(x.Type()) != "reflect.Value" || x.Parent() == nil {
+				return false
+			}
+			sites := core.PlainSites(x.Parent())
+			for _, site := range sites {
+				found := false
+				for i, q := range x.Parent().Params {
+					if q == x && i < len(site.Call.Args) && isKey(site.Call.Args[i], depth+1) {
+						found = true
+					}
+				}
+				if !found {
+					return false
+				}
+			}
+			return len(sites) > 0
 		}
 		return false
 	}
